@@ -1,8 +1,10 @@
 (* Model/Names.v -- pybtex/database/__init__.py:617-789  Person.__init__ / _parse_string
    (process_first_middle, process_von_last, find_pos, split_at, rsplit_at, is_von_name,
    special_char_islower) and __str__ / get_part_as_text.  Mirrors /repo HEAD (after the
-   fix: commit for find_pos on an empty list).  No proofs here. *)
+   fix: commits).  Letter classes (str.isalpha/isupper/islower) are the table-driven ones of
+   Model/NamesUni.v (ASCII through Base/PyChar.v).  No proofs here. *)
 From Pybtex Require Import Base.Prelude Base.PyChar Base.PyStr Model.BibtexStr.
+From Pybtex Require Export Model.NamesUni.
 
 Record person := mkPerson {
   p_first : list str; p_middle : list str; p_prelast : list str; p_last : list str; p_lineage : list str }.
@@ -15,9 +17,9 @@ Fixpoint scil_go (s : str) (control_sequence : bool) : bool :=
   | [] => false
   | c :: t =>
     if control_sequence then
-      (if is_alpha c then scil_go t true else scil_go t false)
+      (if uni_is_alpha c then scil_go t true else scil_go t false)
     else
-      (if is_alpha c then is_lower c else scil_go t false)
+      (if uni_is_alpha c then uni_is_lower c else scil_go t false)
   end.
 Definition special_char_islower (sc : str) : bool := scil_go (skipn 1 sc) true.
 
@@ -32,7 +34,7 @@ Fixpoint von_scan (ts : list tok) (po : bool) : bool :=
   | [] => false
   | (t, l) :: rest =>
     match l, t with
-    | O, [c] => if is_alpha c then is_lower c else von_scan rest (is_open1 (t, l))
+    | O, [c] => if uni_is_alpha c then uni_is_lower c else von_scan rest (is_open1 (t, l))
     | 1, b :: _ => if N.eqb b c_bslash && po then special_char_islower t else von_scan rest (is_open1 (t, l))
     | _, _ => von_scan rest (is_open1 (t, l))
     end
@@ -43,8 +45,8 @@ Definition is_von_name (s : str) : res bool :=
   match s with
   | [] => Crash
   | c :: _ =>
-    if is_upper c then Ok false
-    else if is_lower c then Ok true
+    if uni_is_upper c then Ok false
+    else if uni_is_lower c then Ok true
     else do ts <- scan s; Ok (von_scan ts false)
   end.
 
